@@ -125,6 +125,11 @@ func main() {
 		jobs = append(jobs, job{0, fmt.Sprintf("hammer %d 1", 1500*r.Scale)}, job{0, fmt.Sprintf("hammer %d 2", 1500*r.Scale)})
 		jobs = append(jobs, job{0, fmt.Sprintf("lockrace %d 1", 150*r.Scale)})
 		jobs = append(jobs, job{0, "taskpanic 1 false"}, job{0, "taskpanic 3 true"})
+		// hive.go's debug mode (deadlock detector per task, closure stack traces): the same oracles must hold
+		jobs = append(jobs, job{0, runCfg{"debug-drain", 2, false, 2, 6, 1, 2, 21}.String()},
+			job{0, runCfg{"debug-pending", 3, true, 1, 6, 0, 2, 22}.String()},
+			job{0, runCfg{"debug-restart", 1, false, 1, 3, 0, 3, 23}.String()},
+			job{0, runCfg{"debug-racing", 4, true, 3, 12, 2, 2, 24}.String()})
 		jobs = append(jobs, job{0, "config 1"}, job{0, "sync seq 1 80"}, job{0, "sync seq 2 200"},
 			job{0, "debounce 1 1 50 1"}, job{0, "debounce 2 3 200 2"}, job{0, "debounce 4 4 300 3"})
 		for _, d := range groupCorpus() {
